@@ -268,5 +268,27 @@ theorem isClause_join (T : PrecTables) (l : Fin 13 → Loc) (outer : Bool) (u f 
     simp [clauseTurn, parseJoin, PSt.prepend, next, expectConsume, expectConsumeOp, consumeIdentifier, consumeString,
       PRes.bind, hfree, ClauseVal.put]
 
+/-- tables that give no precedence to the tokens that may follow a clause (true of the code's tables) -/
+def InertBoundary (T : PrecTables) : Prop := ∀ t, Boundary t → lookupTok T.other t = none
+
+theorem inertBoundary_code : InertBoundary PrecTables.code := by
+  intro t ht
+  unfold Boundary ClauseKw at ht
+  rcases ht with (h | h | h | h | h | h) | h | h <;> subst h <;> decide
+
+/-- `WHERE x` (one identifier) is a clause: the value is the column node, located at whatever token follows -/
+theorem isClause_where_ident (T : PrecTables) (hT : InertBoundary T) (l1 l2 : Loc) (x : List Char) :
+    IsClause T 4 [⟨l1, .kw .where⟩, ⟨l2, .ident x⟩] (.filter (.column ⟨0, 0⟩ x)) := by
+  refine ⟨⟨_, _, rfl, by simp [ClauseKw]⟩, ?_⟩
+  intro fuel c tail hfuel hb hfree
+  obtain ⟨n, rfl⟩ : ∃ n, fuel = n + 4 := ⟨fuel - 4, by omega⟩
+  simp only [ClauseVal.free] at hfree
+  have hnone := hT _ hb
+  refine ⟨.filter (.column tail.cur.loc x), by simp [ClauseVal.Same, ClauseVal.erase, PExpr.noLoc], ?_⟩
+  unfold Boundary ClauseKw at hb
+  rcases hb with (h | h | h | h | h | h) | h | h <;>
+    simp [clauseTurn, PSt.prepend, next, hfree, parseExpr, parseUnary, parsePrimary, parseRhs, tokenPrecedence, h,
+      ClauseVal.put, h ▸ hnone]
+
 end Parse
 end Sqlgrep
